@@ -46,6 +46,15 @@ def run_check(f, data):
     return v, ctx
 
 
+def safe(ck, label, thunk):
+    """an input check that can no longer be encoded is inconclusive, never a crash"""
+    try:
+        return thunk()
+    except R.Unsupported as e:
+        ck.add_inconclusive(f"{label}: not encodable ({e})")
+        return None
+
+
 def iff_obligations(ck, label, fault, raises, pre, data, realfn, n):
     """fault => raises, and no fault => does not raise"""
     for lab, cons in ((f"{label}: fault accepted silently", pre + [fault, z3.Not(raises)]),
@@ -128,7 +137,11 @@ def conversions(ck, n):
              ("int->float", ints("x", n), float), ("bool->float", bools("x", n), float), ("bool->int", bools("x", n), int)]
     for lab, s, ty in cases:
         ctx = R.Ctx()
-        v, ctx = R.run(GT.convert_series_to_internal_type, kwargs={"series": s._copy(), "internal_type": ty}, ctx=ctx)
+        try:
+            v, ctx = R.run(GT.convert_series_to_internal_type, kwargs={"series": s._copy(), "internal_type": ty}, ctx=ctx)
+        except R.Unsupported as e:
+            ck.add_inconclusive(f"conversion {lab} N={n}: not encodable ({e})")
+            continue
         ck.functions |= ctx.funcs
         raises = raises_guard(ctx)
         if v is None:
@@ -316,7 +329,10 @@ def run(tier):
     ck = common.Check("C20", tier)
     sizes = [2, 3] if tier == "quick" else [1, 2, 3, 4]
     for n in sizes:
-        input_checks(ck, n)
+        try:
+            input_checks(ck, n)
+        except R.Unsupported as e:
+            ck.add_inconclusive(f"input checks N={n}: not encodable ({e})")
         conversions(ck, min(n, 3))
     machine_number_lemma(ck, tier)
     name_logic(ck, tier)
